@@ -273,6 +273,17 @@ def r19_2(ctx: Ctx, rep: Report, rid: str = "R19.2") -> None:  # noqa: C901
                 if c0 and c1 and c0[0] == "self" and isinstance(g0.target, ast.Name) and c1[0] == g0.target.id and {c0[1], c1[1]} == {"src", "dst"} and isinstance(g1.target, ast.Name) and src(n.elt) == g1.target.id:
                     ok = True
                     rep.ok("Ace.ungroup_ports: stages", f"{snippet(n, 90)}: the second stage runs for every entry of the first: full cross product", where=where(up, n))
+            # chain.from_iterable(H(o, "dstport") for o in <first stage>)  /  sum((H(o, ...) for o in ...), [])
+            flat = None
+            if isinstance(n, ast.Call) and src(n.func).endswith("from_iterable") and len(n.args) == 1:
+                flat = n.args[0]
+            elif isinstance(n, ast.Call) and src(n.func) == "sum" and len(n.args) == 2 and isinstance(n.args[1], ast.List) and not n.args[1].elts:
+                flat = n.args[0]
+            if isinstance(flat, (ast.GeneratorExp, ast.ListComp)) and len(flat.generators) == 1 and not flat.generators[0].ifs and isinstance(flat.generators[0].target, ast.Name):
+                c0, c1 = _stage_call(flat.generators[0].iter, up, uenv), _stage_call(flat.elt, up, uenv)
+                if c0 and c1 and c0[0] == "self" and c1[0] == flat.generators[0].target.id and {c0[1], c1[1]} == {"src", "dst"}:
+                    ok = True
+                    rep.ok("Ace.ungroup_ports: stages", f"{snippet(n, 90)}: the second stage runs for every entry of the first and the results are concatenated: full cross product", where=where(up, n))
             if isinstance(n, ast.For) and isinstance(n.target, ast.Name):
                 c0 = _stage_call(n.iter, up, uenv)
                 if c0 and c0[0] == "self":
